@@ -246,10 +246,16 @@ func isReloadRequired(entry cacheEntry, checkInterval time.Duration) bool {
 func (c *keyCache) GetOrLoad(id KeyMeta, loader func(KeyMeta) (*internal.CryptoKey, error)) (*cachedCryptoKey, error) {
 	c.rw.RLock()
 	k, ok := c.getFresh(id)
+
+	if ok {
+		// take the reference before releasing the lock so a concurrent eviction cannot destroy the key
+		k = tracked(k)
+	}
+
 	c.rw.RUnlock()
 
 	if ok {
-		return tracked(k), nil
+		return k, nil
 	}
 
 	c.rw.Lock()
